@@ -502,7 +502,10 @@ class StmtMixin:
                 assert len(sub) == 1
                 s2 = sub[0].st
             for bo in self.ex_block(s2, s.body):
-                outs.extend(cm.exit(self, bo))
+                try:
+                    outs.extend(cm.exit(self, bo, eo.token))
+                except TypeError:
+                    outs.extend(cm.exit(self, bo))
         return outs
 
     # ------------------------------------------------------------------ loops
